@@ -450,6 +450,7 @@ void execute(const sim::Plan &plan) {
   long planned = 0;
   for (const sim::Op &op : plan.ops) {
     if (op.kind == "send" || op.kind == "presend") planned += std::max(1L, std::min(4000000L, op.arg(1)));
+    if (op.kind == "pause" && op.arg(1) > 0) planned += std::max(1L, std::min(4000000L, op.arg(1)));
     if (op.kind == "chain") planned += std::max(1L, std::min(4000000L, op.arg(1))) * std::max(0L, std::min(8L, op.arg(2)));
   }
   long drain_steps = 400 + std::min(60000L, planned / 1024);
